@@ -73,9 +73,10 @@ def work_multi_skip(chunk, st):
 
 def work_degenerate(chunk, st):
     # degenerate group-exchange groups handed to the host-key probe: the probe fails, the next connection must start afresh
-    for _t, p, g in chunk:
+    for _t, plabel, g in chunk:
+        p = eval(plabel) if isinstance(plabel, str) else plabel
         for pattern in ('always', 'first-only'):
-            srv = F._srv_D2(g=g, p=p)
+            srv = F._srv_D2(g=eval(g) if isinstance(g, str) else g, p=p)
             if pattern == 'first-only':
                 good = F._srv_D2()
                 seen = [0]
@@ -86,8 +87,8 @@ def work_degenerate(chunk, st):
                 srv._gex_prime = prime
             res = H.audit(srv, opts=['-n', '--skip-rate-test'])
             res.peer = srv
-            st.execution(res.world, outcome=('D2p', pattern, len(res.world.conns)), root=('D2p', p, g, pattern), nontrivial=('D2p', p, g, pattern))
-            judge(res, 'D2', [], False, st, {'arch': 'D2', 'gex_group': {'p': p, 'g': g}, 'pattern': pattern})
+            st.execution(res.world, outcome=('D2p', pattern, len(res.world.conns)), root=('D2p', plabel, g, pattern), nontrivial=('D2p', plabel, g, pattern))
+            judge(res, 'D2', [], False, st, {'arch': 'D2', 'gex_group': {'p': plabel, 'g': g}, 'pattern': pattern})
 
 
 # ---- rate-phase behaviours
